@@ -2161,3 +2161,21 @@ M("c03-bucketpairs-empty-spec-panics", "C03", "histogram.go",
   "	if buckets == nil || buckets.Len() < 1 {\n		return []BucketPair{_singleBucket}", "	if buckets == nil {\n		return []BucketPair{_singleBucket}", expect="pairs-default")
 M("c06-buffer-reset-after-put", "C06", "sanitize.go",
   "	b.Reset()\n	_sanitizeBuffers.Put(b)", "	_sanitizeBuffers.Put(b)\n	b.Reset()", expect="O4 pooled-buffer")
+M("c13-tagsequal-and", "C13", "m3/reporter.go",
+  "		if v, ok := tags[tag.Name]; !ok || v != tag.Value {", "		if v, ok := tags[tag.Name]; !ok && v != tag.Value {", expect="cache-hit-equality")
+M("c13-tagsequal-inverted-value", "C13", "m3/reporter.go",
+  "		if v, ok := tags[tag.Name]; !ok || v != tag.Value {", "		if v, ok := tags[tag.Name]; !ok || v == tag.Value {", expect="cache-hit-equality")
+M("c14-dec-not-deferred", "C14", "m3/reporter.go",
+  "	r.pending.Inc()\n	defer r.pending.Dec()\n\n	if r.done.Load() {\n		return\n	}\n\n	m.Timestamp", "	r.pending.Inc()\n	r.pending.Dec()\n\n	if r.done.Load() {\n		return\n	}\n\n	m.Timestamp", expect="O1 enter-protocol")
+M("c13-borrowed-tags-not-truncated", "C13", "m3/reporter.go",
+  "				borrowedTags = borrowedTags[:0]\n", "", expect="borrowed")
+M("c13-clock-never-refreshed", "C13", "m3/reporter.go",
+  "	for !r.done.Load() {\n		r.now.Store(time.Now().UnixNano())", "	for !r.done.Load() {", expect="clock")
+M("c13-ticker-stopped-at-once", "C13", "m3/reporter.go",
+  "	defer t.Stop()\n	for !r.done.Load() {", "	t.Stop()\n	for !r.done.Load() {", expect="clock")
+M("c13-timeloop-not-started", "C13", "m3/reporter.go",
+  "		defer r.wg.Done()\n		r.timeLoop()", "		defer r.wg.Done()", expect="clock")
+M("c13-ndigits-from-zero", "C13", "m3/reporter.go",
+  "	n := 1\n	for i/10 != 0 {", "	n := 0\n	for i/10 != 0 {", expect="bucket-identity")
+M("c13-m3-renderer-inverted", "C13", "m3/reporter.go",
+  "	if v == -math.MaxFloat64 {", "	if v != -math.MaxFloat64 {", expect="")
